@@ -18,10 +18,32 @@
 extern "C" __attribute__((used)) const char *__asan_default_options() { return "exitcode=77:detect_leaks=0:abort_on_error=0:allocator_may_return_null=1:handle_segv=1:detect_stack_use_after_return=0"; }
 extern "C" __attribute__((used)) const char *__ubsan_default_options() { return "halt_on_error=1:exitcode=77:print_stacktrace=1"; }
 
+#if defined(__has_feature)
+#if __has_feature(address_sanitizer)
+#define NVSIM_ASAN 1
+extern "C" void __sanitizer_set_death_callback(void (*)(void));
+extern "C" void __sanitizer_print_stack_trace(void);
+#endif
+#endif
+
+static void death_note()
+{
+	fprintf(stderr, "\nCALLS run=%ld step=%ld sim_s=%lld\n", K.run_calls, K.step_calls, (long long) (K.clock_ns / 1000000000ll - 1700000000ll));
+	// where the editor was when the sanitizer stopped it (async-signal-unsafe code is fine here: we are dying)
+	std::string k = K.step ? (K.step->op == "keys" ? K.step->keys : K.step->op) : std::string("<quit suffix or start>");
+	fprintf(stderr, "\nINFLIGHT step=%d keys=%s\n", K.cur_step, vis(k, 300).c_str());
+	fprintf(stderr, "EVENT-TAIL\n%s", K.tail_log(12).c_str());
+}
+
 static volatile unsigned long long g_inflight_seed;
 static volatile int g_inflight_kind;	// 0 seed 1 grid index
+static void death_note();
 static void watchdog(int)
 {
+#ifdef NVSIM_ASAN
+	__sanitizer_print_stack_trace();
+#endif
+	death_note();
 	char b[96];
 	int n = snprintf(b, sizeof b, "\nWATCHDOG %s %llu\n", g_inflight_kind ? "grid" : "seed", g_inflight_seed);
 	if (write(1, b, (size_t) n) < 0) {}
@@ -284,15 +306,20 @@ static int cmd_plan(int argc, char **argv)
 	Plan plan = Plan::from_json(pj);
 	Check *chk = find_check(plan.prop);
 	if (!chk) return 2;
+	signal(SIGVTALRM, watchdog);
+	arm(plan.seed, 0, getenv("NVSIM_WATCHDOG") ? atoi(getenv("NVSIM_WATCHDOG")) : 20);
 	RunResult r = run_plan(plan, *chk, argv[3]);
-	printf("%s\n", result_json(r).dump(1).c_str());
-	printf("--- event tail\n%s--- screen\n%s", K.tail_log(60).c_str(), K.vt.dump().c_str());
-	return 0;
+	printf("%s\n", result_json(r).dump(getenv("NVSIM_QUIET") ? -1 : 1).c_str());
+	if (!getenv("NVSIM_QUIET")) printf("--- event tail\n%s--- screen\n%s", K.tail_log(60).c_str(), K.vt.dump().c_str());
+	return r.has_violation ? 1 : 0;
 }
 
 int main(int argc, char **argv)
 {
 	setvbuf(stdout, nullptr, _IOLBF, 0);
+#ifdef NVSIM_ASAN
+	__sanitizer_set_death_callback(death_note);
+#endif
 	if (argc < 2) { fprintf(stderr, "usage: nvsim run|grid|replay|gen|plan|list ...\n"); return 2; }
 	std::string c = argv[1];
 	if (c == "list") {
